@@ -97,7 +97,11 @@ let () =
         let b = bsplinebasis ar d.ds_knots d.ds_coords d.ds_order in
         pr_mat (Printf.sprintf "basis.%d" k) b;
         let kn = (fun i -> nth i d.ds_knots ar.zero) in
-        pr_mat (Printf.sprintf "pen.%d" k) (calc_penalty ar nspl kn (nat_of_int k) d.ds_order (List.nth porders k))) dims;
+        (* as the harness: only within the limits inside which fit() reaches calc_penalty (porder <= order, porder <= nsplines) *)
+        let int_of_nat n = let rec go acc = function O -> acc | S m -> go (acc + 1) m in go 0 n in
+        let po = int_of_nat (List.nth porders k) in
+        if po <= int_of_nat d.ds_order && po <= int_of_nat (List.nth nspl k) then
+          pr_mat (Printf.sprintf "pen.%d" k) (calc_penalty ar nspl kn (nat_of_int k) d.ds_order (List.nth porders k))) dims;
       pr_arr "Farr" (farr ar dims data);
       pr_arr "Rarr" (rarr ar dims data);
       let (a, r) = fit_system ar dims smooth porders data in
